@@ -202,28 +202,55 @@ def depth_cases():
             for wl in (True, False)]
 
 
+def _innermost(tree):
+    """(deepest container, deepest object) of a single-child chain."""
+    cur, parent = tree, None
+    while True:
+        nxt = None
+        if isinstance(cur, (list, deque, tuple)) and len(cur):
+            nxt = cur[0]
+        elif isinstance(cur, dict) and cur:
+            nxt = next(iter(cur.values()))
+        elif isinstance(cur, (un.CG, un.CN)) and cur.children:
+            nxt = cur.children[0]
+        if nxt is None:
+            return parent, cur
+        parent, cur = cur, nxt
+
+
 def check_depth(ctx, c):
     lim = optree.MAX_RECURSION_DEPTH
     tree = chain(c['kind'], c['depth'], c['leaf'])
     # node at depth d exists iff ...: with a leaf, deepest object has depth `depth`; without, depth-1
     deepest = c['depth'] if (c['leaf'] or c['kind'] == 'ss') else c['depth'] - 1  # innermost struct sequence holds two leaves
-    should_raise = deepest > lim
+    inner_container, inner_obj = _innermost(tree)
+    preds = {
+        'none': (None, deepest),
+        # the predicate accepts exactly the deepest object: it is a leaf, but still sits at depth `deepest`
+        'accept-deepest': ((lambda x: x is inner_obj), deepest),
+        # the predicate accepts the innermost container: the traversal stops one level higher
+        'accept-innermost-container': ((lambda x: x is inner_container), deepest - 1 if inner_container is not None and inner_obj is not inner_container and c['kind'] != 'ss' else deepest),
+    }
     for nil in (False, True):
         for ns in ('ns', ''):
             if c['kind'] == 'cn' and ns == '':
                 continue
-            kw = {'is_leaf': None, 'none_is_leaf': nil, 'namespace': ns}
-            case = {'depth': c, 'cfg': {'nil': nil, 'ns': ns, 'pred': 'none', 'mode': 'sorted'}}
-            ctx.count()
-            ctx.cls(('depth', c['kind'], c['depth'], c['leaf'], nil, ns))
-            for name, f in ENTRY_POINTS.items():
-                r = outcome_of(lambda f=f: f(tree, kw))
-                got = r if r[0] == 'exc' else 'ok'
-                want = ('exc', 'RecursionError') if should_raise else 'ok'
-                if got != want:
-                    ctx.violation(f'depth-threshold:{name}', f'{PROP}:depth-threshold', case,
-                                  f'{name} at deepest={deepest} limit={lim}: {got} expected {want}')
-            ctx.outcome('depth:' + ('raises' if should_raise else 'ok'))
+            for pname, (pred, deep) in preds.items():
+                if pname != 'none' and (nil or c['kind'] == 'ss'):
+                    continue
+                should_raise = deep > lim
+                kw = {'is_leaf': pred, 'none_is_leaf': nil, 'namespace': ns}
+                case = {'depth': c, 'cfg': {'nil': nil, 'ns': ns, 'pred': pname, 'mode': 'sorted'}}
+                ctx.count()
+                ctx.cls(('depth', c['kind'], c['depth'], c['leaf'], nil, ns, pname))
+                for name, f in ENTRY_POINTS.items():
+                    r = outcome_of(lambda f=f: f(tree, kw))
+                    got = r if r[0] == 'exc' else 'ok'
+                    want = ('exc', 'RecursionError') if should_raise else 'ok'
+                    if got != want:
+                        ctx.violation(f'depth-threshold:{name}', f'{PROP}:depth-threshold', case,
+                                      f'{name} (predicate {pname}) deepest visited={deep} limit={lim}: {got} expected {want}')
+                ctx.outcome('depth:' + ('raises' if should_raise else 'ok'))
     # break the chain iteratively so that deallocation does not recurse deeply
     _dismantle(tree)
 
